@@ -29,7 +29,7 @@ use arrow_buffer::{
     ScalarBuffer, ToByteSlice,
 };
 use arrow_data::transform::MutableArrayData;
-use arrow_data::{ArrayData, ByteView};
+use arrow_data::{ArrayData, ByteView, MAX_INLINE_VIEW_LEN};
 use arrow_schema::{ArrowError, DataType};
 use std::fmt::{Debug, Formatter};
 use std::hash::Hash;
@@ -753,10 +753,12 @@ impl<T: ByteViewType> ByteViewScalarImpl<T> {
                 let true_count = predicate.count_set_bits();
                 let mut buffers: Vec<Buffer> = truthy_buffers.to_vec();
 
-                // If the falsy buffers are empty, we can use the falsy view as it is, because the value
-                // is completely inlined. Otherwise, we have non-inlined values in the buffer, and we need
-                // to recalculate the falsy view
-                let view_falsy = if falsy_buffers.is_empty() {
+                // If the falsy value is inlined (which is always the case when the falsy buffers are
+                // empty, but also for a short value of an array that owns data buffers) we can use the
+                // falsy view as it is: it has no buffer index. Otherwise the value lives in a buffer,
+                // and we need to recalculate the falsy view
+                let falsy_is_inlined = (falsy_view as u32) <= MAX_INLINE_VIEW_LEN;
+                let view_falsy = if falsy_buffers.is_empty() || falsy_is_inlined {
                     falsy_view
                 } else {
                     let byte_view_falsy = ByteView::from(falsy_view);
